@@ -375,3 +375,122 @@ HARNESSES = [
                  'with L3 (phi >= 0 after a grant) and L4 (phi <= 2C): <= r*w + 2*burst; after a limit change the same holds with the new limits (L6)',
                  'K-step lemma: direct statement for a fresh bucket and k <= 3 (quick) / 5 (thorough) calls at arbitrary times']),
 ]
+
+
+# ---- the writer's call sites (engine X): tokens are acquired before backend work, one per operation ------------------------
+from vp_lib.api import H, cover  # noqa: E402
+from vp_lib import cachelab as K  # noqa: E402
+from vp_lib import writerlab as W  # noqa: E402
+from vp_lib.cachelab import sset  # noqa: E402
+from carbon.conf import settings as _settings  # noqa: E402
+
+
+def _writer_sites(cmod, strat, b0, b1, b2, b3, ea, eb, cb_peek, cb_drain, use_cb, use_ub):
+  cache = K.build(cmod, strat, [b0, b1, b2, b3], [1, 2, 3, 4], 0)
+  db = W.RecordingDB(preexisting=[m for m, e in (('a', ea), ('b', eb)) if e])
+  order = []
+  cb = W.BucketStub(cb_peek, cb_drain) if use_cb else None
+  ub = W.BucketStub(0, 0) if use_ub else None
+  for name, bucket in (('create', cb), ('update', ub)):
+    if bucket is not None:
+      real_drain, real_peek = bucket.drain, bucket.peek
+
+      def drain(cost, blocking=False, _n=name, _d=real_drain):
+        ok = _d(cost, blocking)
+        order.append((_n + '_drain', cost, blocking, ok))
+        return ok
+
+      def peek(cost, _n=name, _p=real_peek):
+        ok = _p(cost)
+        order.append((_n + '_peek', cost, ok))
+        return ok
+      bucket.drain, bucket.peek = drain, peek
+  db.hook = lambda kind, metric: order.append((kind, metric))
+  W.install(cache, db, cb, ub)
+  try:
+    W.writer.writeCachedDataPoints()
+  finally:
+    W.restore()
+  cover('ran')
+  tokens = {'create': 0, 'update': 0}
+  for ev in order:
+    if ev[0] in ('create_drain', 'update_drain'):
+      if ev[1] != 1:
+        raise AssertionError('%s acquired %r tokens for one operation' % (ev[0], ev[1]))
+      if ev[0] == 'update_drain' and not ev[2]:
+        raise AssertionError('update token acquired without blocking')
+      if ev[3]:
+        tokens[ev[0].split('_')[0]] += 1
+    elif ev[0] in ('create_peek', 'update_peek'):
+      if ev[1] != 1:
+        raise AssertionError('peek with cost %r' % (ev[1],))
+    elif ev[0] == 'create' and cb is not None:
+      if tokens['create'] < 1:
+        raise AssertionError('database.create() without a create token')
+      tokens['create'] -= 1
+      cover('create_limited')
+    elif ev[0] == 'write' and ub is not None:
+      if tokens['update'] < 1:
+        raise AssertionError('database.write() without an update token')
+      tokens['update'] -= 1
+      cover('write_limited')
+  if tokens['create'] or tokens['update']:
+    raise AssertionError('tokens acquired but not spent on the operation they were acquired for: %r' % (tokens,))
+  return True
+
+
+def C20_writer_sites(strat: int, b0: bool, b1: bool, b2: bool, b3: bool, ea: bool, eb: bool, cb_peek: int, cb_drain: int,
+                     use_cb: bool, use_ub: bool) -> bool:
+  """
+  pre: 0 <= strat <= 6
+  pre: 0 <= cb_peek <= 7 and 0 <= cb_drain <= 7
+  pre: use_cb or (cb_peek == 0 and cb_drain == 0)
+  post: __return__
+  """
+  return _writer_sites(K.SHADOW, strat, b0, b1, b2, b3, ea, eb, cb_peek, cb_drain, use_cb, use_ub)
+
+
+def replay_writer_sites(strat, b0, b1, b2, b3, ea, eb, cb_peek, cb_drain, use_cb, use_ub):
+  return _writer_sites(K.real_cache, strat, b0, b1, b2, b3, ea, eb, cb_peek, cb_drain, use_cb, use_ub)
+
+
+def C20_shutdown_limits(has_setting: bool, use_cb: bool, use_ub: bool, lag: int) -> bool:
+  """
+  pre: lag >= 0
+  post: __return__
+  """
+  cb = W.BucketStub(0, 0) if use_cb else None
+  ub = W.BucketStub(0, 0) if use_ub else None
+  cache = K.build(K.SHADOW, 0, [False] * 4, [0] * 4, 0)
+  W.install(cache, W.RecordingDB(), cb, ub)
+  sset('MIN_TIMESTAMP_LAG', lag)
+  if has_setting:
+    sset('MAX_UPDATES_PER_SECOND_ON_SHUTDOWN', 777)
+  else:
+    _settings.pop('MAX_UPDATES_PER_SECOND_ON_SHUTDOWN', None)
+  try:
+    W.writer.shutdownModifyUpdateSpeed()
+    lag_after = _settings.MIN_TIMESTAMP_LAG        # read the way carbon.cache reads it (attribute, then item)
+  finally:
+    W.restore()
+    sset('MIN_TIMESTAMP_LAG', 0)
+    _settings.pop('MAX_UPDATES_PER_SECOND_ON_SHUTDOWN', None)
+  cover('ran')
+  want = [(777, 777)] if has_setting else []
+  for b in (cb, ub):
+    if b is not None and b.capacity_changes != want:
+      raise AssertionError('shutdown limit change %r, expected %r' % (b.capacity_changes, want))
+  return lag_after == 0
+
+
+_WS = [('s%d_%s' % (i, n or 'none'), 'strat == %d' % i) for i, n in enumerate(K.STRATEGY_NAMES)]
+HARNESSES += [
+  H('C20_writer_sites', quick=dict(timeout=280, shards=[x for x in _WS if x[0][:2] in ('s0', 's3', 's6')], extra_pre=['cb_peek <= 3 and cb_drain <= 3']),
+    thorough=dict(timeout=900, shards=_WS), covers=['ran', 'create_limited', 'write_limited'], replay='replay_writer_sites',
+    twin_pre=['strat == 3 and use_cb and use_ub'],
+    encodes=['carbon.writer:writeCachedDataPoints (CREATE_BUCKET.peek/drain before database.create, UPDATE_BUCKET.drain(1, blocking=True) before database.write)'],
+    assumptions=['buckets = stubs granting per symbolic bit script and logging every call; ties the TokenBucket lemmas to the writer: one token, acquired first, per create / write']),
+  H('C20_shutdown_limits', quick=dict(timeout=60), covers=['ran'],
+    encodes=['carbon.writer:shutdownModifyUpdateSpeed'],
+    assumptions=['both buckets present/absent, MAX_UPDATES_PER_SECOND_ON_SHUTDOWN set/unset, symbolic MIN_TIMESTAMP_LAG']),
+]
